@@ -270,6 +270,71 @@ def clamp_muhat(c, n_total):
     return max(c['lo'], min(c['hi'], (n_total - c['B']) / c['S']))
 
 
+
+# ---------------------------------------------------------------------------------------
+# (4) models with nuisance parameters, ONE model object reused over a history of (data, mu, statistic) calls:
+#     every call must give what a freshly built model gives for the same call (the hypothesis test is a function
+#     of its arguments, not of what the model object or the calculator module saw before), and the Asimov parameters
+#     must be the conditional fit to the CURRENT data (C08_asimov_is_expectation).
+def nuisance_specs():
+    return [
+        ('uncorrelated_background', dict(signal=[6.0], bkg=[40.0], bkg_uncertainty=[8.0])),
+        ('uncorrelated_background', dict(signal=[3.0, 5.0], bkg=[30.0, 12.0], bkg_uncertainty=[5.0, 3.0])),
+        ('correlated_background', dict(signal=[4.0, 6.0], bkg=[50.0, 20.0], bkg_up=[56.0, 23.0], bkg_down=[45.0, 18.0])),
+    ]
+
+
+def build_nuisance(kind, kw):
+    import pyhf
+    return getattr(pyhf.simplemodels, kind)(**kw)
+
+
+def gen_history(rng, n_models, n_calls):
+    specs = nuisance_specs()
+    out = []
+    for kind, kw in (specs if n_models >= len(specs) else [specs[0]] + rng.sample(specs[1:], max(0, n_models - 1))):
+        bkg = kw['bkg']
+        calls = []
+        for _ in range(n_calls):
+            scale = rng.choice([0.3, 0.6, 1.0, 1.15, 1.6, 0.0])
+            n = [float(round(b * scale + rng.choice([0, 1, 2]))) for b in bkg]
+            calls.append(dict(n=n, mu=rng.choice([0.5, 1.0, 2.5]), kind=rng.choice(['qtilde', 'qtilde', 'q0'])))
+        out.append(dict(model=kind, kwargs=kw, calls=calls))
+    return out
+
+
+def run_history(h):
+    import pyhf
+    import logging
+    logging.getLogger('pyhf.infer.test_statistics').setLevel(logging.ERROR)
+    pyhf.set_backend('numpy')
+    tb, _ = pyhf.get_backend()
+    reused = build_nuisance(h['model'], h['kwargs'])
+    outs = []
+    for c in h['calls']:
+        o = {}
+        for tag in ('reused', 'fresh'):
+            model = reused if tag == 'reused' else build_nuisance(h['model'], h['kwargs'])
+            data = list(c['n']) + list(model.config.auxdata)
+            mu = 0.0 if c['kind'] == 'q0' else c['mu']
+            try:
+                r = pyhf.infer.hypotest(mu, data, model, test_stat=c['kind'], return_tail_probs=True, return_expected_set=True, return_calculator=True)
+                fp = r[3].fitted_pars
+                o[tag] = dict(obs=fl(tb, r[0]), tails=[fl(tb, x) for x in r[1]], band=[fl(tb, x) for x in r[2]],
+                              asimov_pars=[float(x) for x in tb.tolist(fp.asimov_pars)], sqrtqmuA=fl(tb, r[3].sqrtqmuA_v))
+                if tag == 'fresh':
+                    amu = 1.0 if c['kind'] == 'q0' else 0.0
+                    bf = pyhf.infer.mle.fixed_poi_fit(amu, data, model)
+                    o['conditional_fit'] = [float(x) for x in tb.tolist(bf)]
+            except Exception as e:
+                o[tag] = dict(exception=core.exc_enum(e), msg=str(e)[:200])
+        outs.append(o)
+    return outs
+
+
+def flat_result(d):
+    return [d['obs']] + d['tails'] + d['band'] + d['asimov_pars'] + [d['sqrtqmuA']]
+
 # ---------------------------------------------------------------------------------------
 def load_corpus():
     d = os.path.join(core.VERIF, 'corpus', 'C08')
@@ -460,6 +525,35 @@ def run(ctx):
             (case, o, {which: ref}, '%s = %r on the counting model, closed form %r (difference beyond 1e-5, certified)' % (which, o[which], ref)))
     ctx.log('%d closed-form comparisons certified by interval, %d rejected' % (len(items), len(rejected)))
 
+    # ---- (4) nuisance models, one model object reused over a history of calls ----
+    hists = gen_history(rng, ctx.n(2, 3), ctx.n(4, 8))
+    stats['history_calls'] = 0
+    for h in hists:
+        houts = run_history(h)
+        for step, (c, o) in enumerate(zip(h['calls'], houts)):
+            evaluations += 1
+            stats['history_calls'] += 1
+            sigs.add(('history', h['model'], json.dumps(h['kwargs'], sort_keys=True), step, tuple(c['n']), c['mu'], c['kind']))
+            case = dict(model=h['model'], kwargs=h['kwargs'], history=h['calls'][:step + 1], step=step)
+            a, b = o.get('reused', {}), o.get('fresh', {})
+            if 'exception' in b:
+                continue                      # the call itself is refused/fails on a fresh model: not a history effect
+            if 'exception' in a:
+                fails.setdefault('history:raises:%s' % c['kind'], []).append(
+                    (case, o, 'the result of a freshly built model', 'hypotest on a reused model object raises %s (%s); on a freshly built model the same call succeeds' % (a['exception'], a['msg'])))
+                continue
+            fa, fb = flat_result(a), flat_result(b)
+            bad = [i for i, (x, y) in enumerate(zip(fa, fb)) if (x is None) != (y is None) or (x is not None and abs(x - y) > 1e-6 * max(1.0, abs(y)))]
+            if bad:
+                fails.setdefault('history:differs-from-fresh:%s' % c['kind'], []).append(
+                    (case, o, dict(fresh=b), 'call %d of a history on ONE model object (data %r, mu %g, %s): CLs %r, Asimov parameters %r; a freshly built model gives CLs %r, Asimov parameters %r'
+                     % (step, c['n'], c['mu'], c['kind'], a['obs'], a['asimov_pars'], b['obs'], b['asimov_pars'])))
+            cf = o.get('conditional_fit')
+            if cf is not None and any(abs(x - y) > 2e-3 * max(1.0, abs(y)) for x, y in zip(a['asimov_pars'], cf)):
+                fails.setdefault('history:asimov-not-conditional-fit:%s' % c['kind'], []).append(
+                    (case, o, dict(conditional_fit=cf), 'Asimov parameters %r are not the conditional fit %r to the data of this call' % (a['asimov_pars'], cf)))
+    ctx.log('%d calls in %d reuse histories' % (stats['history_calls'], len(hists)))
+
     # ---- decide ----
     found = False
     for sig in sorted(fails)[:8]:
@@ -473,6 +567,7 @@ def run(ctx):
         ctx.violation(sig, text, dict(kind=sig.split(':')[0], case=case, impl=impl, expected=exp, n_failing_cases=len(lst),
                                       theorem='C08_layout_documented_order / C08_singleton_unwrapped' if sig.startswith('layout') else
                                       'C08_refused_without_poi / C08_refused_fixed_poi / C08_accepted_layout' if sig.startswith('prereq') else
+                                      'C08_asimov_is_expectation (the Asimov data set is a function of the data of the call)' if sig.startswith('history') else
                                       'C08_asimov_is_expectation / C08_hypotest_counting_analytic'))
     if tie and not found:
         ctx.violation('tie-broken', tie[:300], dict(kind='tie', detail=tie, theorem='props/C08.v'), nofail=True)
@@ -482,7 +577,7 @@ def run(ctx):
              'enumerated completely (exhaustive refers to this part); non-trivial = at least one flag set. prerequisites: no POI / POI fixed by '
              'argument / by the model / both / nuisance fixed / empty list / override, x calctype x flag subsets. counting: shapes 1 bin .. 3 '
              'channels x 6 bins with signal = r x background, statistics q (lower bound -0.125), qtilde, q0, observed counts zero / below / at '
-             'background / signal-like / far above, tested mu from {0.5, 1, 2, 3.5} (0 for q0); distinct by the full tuple',
+             'background / signal-like / far above, tested mu from {0.5, 1, 2, 3.5} (0 for q0); distinct by the full tuple. histories: simplemodels with nuisance parameters, ONE model object over a sequence of (data, mu, statistic) calls, every call compared with a freshly built model and the Asimov parameters with the conditional fit to the data of that call',
         backends=backends, stats=stats,
         samples=[dict(layout=dict(calctype=lkeys[5][0], kwargs=KW[lkeys[5][1]], flags=dict(zip(FLAGS, lkeys[5][2]))),
                       model_layout=(lmodels[5] if lmodels else None)),
@@ -503,6 +598,10 @@ def replay(body):
     elif kind == 'prereq':
         pc = [p for p in prereq_cases() if p['name'] == c['prereq'] and p['ct'] == c['calctype'] and list(p['flags']) == list(c['flags'])]
         print('pyhf:', run_prereq(pc[0]) if pc else 'case not found', ' expected:', body.get('expected'))
+    elif kind == 'history':
+        outs = run_history(dict(model=c['model'], kwargs=c['kwargs'], calls=c['history']))
+        print('last call of the history, reused vs fresh model object:', json.dumps(outs[-1], default=str))
+        print('expected:', json.dumps(body.get('expected'), default=str))
     else:
         flat = [b for ch in c['channels'] for b in ch]
         c = dict(c, N=sum(c['n']), S=c['r'] * sum(flat), B=sum(flat), nbins=len(flat), nch=len(c['channels']))
